@@ -116,17 +116,36 @@ Proof.
 Qed.
 
 (* ---------- histories of builds on one Requester ---------- *)
-Lemma build_step_wire host port st : fst (build_step host port st) = build host port (request_of st).
+Lemma build_step_wire host port st : fst (build_step host port st) = build host port (effective (request_of st)).
 Proof. reflexivity. Qed.
 
-(* what build() leaves behind: everything but .headers is untouched, in particular .path is
-   still the unquoted path and .qargs the same dict *)
+(* what build() leaves behind: .path is the bare *unquoted* path and .qargs the dict of the
+   request sent (a query given inside the path url merged in), the rest but .headers untouched *)
 Lemma build_step_keeps host port st :
   let st' := snd (build_step host port st) in
-  s_method st' = s_method st /\ s_path st' = s_path st /\ s_qargs st' = s_qargs st /\
+  let r := effective (request_of st) in
+  s_method st' = s_method st /\ s_path st' = q_path r /\ s_qargs st' = q_qargs r /\
   s_body st' = s_body st /\ s_data st' = s_data st /\ s_fargs st' = s_fargs st /\
-  s_headers st' = final_headers (request_of st).
+  s_headers st' = final_headers r.
 Proof. cbn. repeat split. Qed.
+
+Lemma effective_same r :
+  q_method (effective r) = q_method r /\ q_headers (effective r) = q_headers r /\ q_body (effective r) = q_body r.
+Proof.
+  unfold effective. destruct (partition1 35 (q_path r)) as [[p0 f] fr]. destruct (partition1 63 p0) as [[p g] q].
+  repeat split.
+Qed.
+
+(* a path url without '?' and '#' and its qargs are taken as they are *)
+Lemma effective_plain r : mem_n 35 (q_path r) = false -> mem_n 63 (q_path r) = false -> effective r = r.
+Proof.
+  intros H1 H2. unfold effective.
+  assert (P1 : forall c s, mem_n c s = false -> partition1 c s = (s, false, [])).
+  { intros c s. induction s as [|x s IH]; intros H; [reflexivity|].
+    unfold mem_n in H. cbn [existsb] in H. apply orb_false_iff in H. destruct H as [Hx Hs].
+    cbn [partition1]. rewrite N.eqb_sym in Hx. rewrite Hx, IH by exact Hs. reflexivity. }
+  rewrite (P1 35 _ H1), (P1 63 _ H2). cbn [qargs_merge]. now destruct r.
+Qed.
 
 (* every build of a history sends exactly the request its arguments and the carried-over
    attributes describe *)
@@ -141,7 +160,7 @@ Qed.
 (* the request of the (i+1)-th build: given fields replace, the others are those of the i-th
    request (headers: as build i left them), body / data / fargs never carry over *)
 Lemma next_request host port st a :
-  let r := request_of st in
+  let r := effective (request_of st) in
   let r' := request_of (reinit (snd (build_step host port st)) a) in
   q_method r' = match a_method a with Some m => m | None => q_method r end /\
   q_path r' = match a_path a with Some p => p | None => q_path r end /\
@@ -152,7 +171,10 @@ Lemma next_request host port st a :
               | None, Some f => Form f
               | None, None => Raw (match a_body a with Some b => b | None => [] end)
               end.
-Proof. cbn. repeat split. Qed.
+Proof.
+  destruct (effective_same (request_of st)) as [Hm [Hh Hb]].
+  cbn -[effective]. rewrite Hm. repeat split.
+Qed.
 
 Lemma history_roundtrip o host port ops st :
   Forall (fun rw => roundtrip o host port (fst rw) = true ->
@@ -176,11 +198,14 @@ Definition bare_args : rargs :=
 (* a bare transmit() resends the held request: same method, path, query, body; headers as the
    previous build left them *)
 Lemma resend_request host port st :
-  let r := request_of st in
+  let r := effective (request_of st) in
   let r' := request_of (apply_args (snd (build_step host port st)) bare_args) in
   q_method r' = q_method r /\ q_path r' = q_path r /\ q_qargs r' = q_qargs r /\
   q_body r' = q_body r /\ q_headers r' = final_headers r.
-Proof. cbn. repeat split. Qed.
+Proof.
+  destruct (effective_same (request_of st)) as [Hm [Hh Hb]].
+  cbn -[effective]. rewrite Hm, Hb. repeat split.
+Qed.
 
 Definition h_ops : list rargs :=
   [ no_args; bare_args;
